@@ -77,10 +77,17 @@ join_same_entries(econf_file *ef)
 	  {
 	    /* removing leading spaces */
 	    while(isspace(*post)) post++;
-	    ret = asprintf(&(ef->file_entry[i].value), "%s\n%s", pre,
-			   post);
-	    if(ret<0)
-	      return ECONF_NOMEM;
+	    if (pre == NULL || *pre == '\0') {
+	      /* the entry is empty or has been reset; nothing to append to */
+	      ef->file_entry[i].value = strdup(post);
+	      if (ef->file_entry[i].value == NULL)
+		return ECONF_NOMEM;
+	    } else {
+	      ret = asprintf(&(ef->file_entry[i].value), "%s\n%s", pre,
+			     post);
+	      if(ret<0)
+		return ECONF_NOMEM;
+	    }
 	    free(pre);
 	  }
 	}
